@@ -617,3 +617,10 @@ func (l *Link) StartPump(d Dir, lat []time.Duration, seg []int) {
 		}
 	}()
 }
+
+// Consumed returns the number of bytes of direction d that the reading end has actually read so far.
+func (l *Link) Consumed(d Dir) int64 {
+	l.mu.Lock()
+	defer l.mu.Unlock()
+	return l.h[d].readTotal
+}
